@@ -724,3 +724,55 @@ Proof.
        constructor; [apply toy_codeword; reflexivity|]; constructor; [apply toy_codeword; reflexivity|constructor]
       |cbn; now rewrite Nat2N.id]).
 Qed.
+
+(* ---------------- decoder depth over the life of a connection ---------------- *)
+
+Lemma dec_values_balanced : forall maxd ns d d', dec_values maxd d ns = DOk d' -> d' = d.
+Proof.
+  intros maxd ns. induction ns as [|n ns IH]; intros d d' H; cbn in H.
+  - now injection H.
+  - unfold dec_value in H. destruct ((0 <? n) && (maxd <=? d + n)); [discriminate|]. now apply IH.
+Qed.
+
+(* a message leaves the decoder's depth where it found it *)
+Lemma depth_frame_lemma : forall k maxd d ns d',
+  dec_frame (mark_leaks_of k) k maxd d ns = DOk d' -> d' = d.
+Proof.
+  intros [|] maxd d ns d' H; cbn in H; now apply dec_values_balanced in H.
+Qed.
+
+Lemma dec_values_ok : forall maxd ns, Forall (fun n => n < maxd) ns -> dec_values maxd 0 ns = DOk 0.
+Proof.
+  intros maxd ns H. induction H as [|n ns Hn H IH]; [reflexivity|].
+  cbn [dec_values]. unfold dec_value. cbn [Nat.add].
+  assert (E : (maxd <=? n) = false) by (apply Nat.leb_gt; exact Hn).
+  rewrite E, andb_false_r. exact IH.
+Qed.
+
+(* any number of messages whose values nest less than MaxDepth deep: never a depth error *)
+Lemma depth_conn_lemma : forall k maxd frames i,
+  Forall (Forall (fun n => n < maxd)) frames ->
+  dec_conn (mark_leaks_of k) k maxd 0 frames i = None.
+Proof.
+  intros k maxd frames. induction frames as [|ns frames IH]; intros i H; [reflexivity|].
+  inversion H as [|? ? Hns Hfr]; subst. cbn [dec_conn].
+  assert (E : dec_frame (mark_leaks_of k) k maxd 0 ns = DOk 0).
+  { destruct k; cbn; now apply dec_values_ok. }
+  rewrite E. now apply IH.
+Qed.
+
+(* the leaking variant: scalars only, and still the connection dies after MaxDepth - 1 messages *)
+Lemma depth_leak_run : forall maxd m d i, d + m = maxd -> 0 < m ->
+  dec_conn true SpecRpc maxd d (repeat [0; 0; 0; 0] m) i = Some (i + (m - 1)).
+Proof.
+  intros maxd m. induction m as [|m IH]; intros d i Hd Hm; [lia|].
+  cbn [repeat dec_conn dec_frame dec_mark].
+  destruct (maxd <=? S d) eqn:E.
+  - apply Nat.leb_le in E. assert (m = 0) by lia. subst m. f_equal. lia.
+  - apply Nat.leb_gt in E. cbn [dec_values]. unfold dec_value. cbn [Nat.ltb Nat.leb andb].
+    rewrite (IH (S d) (S i)) by lia. f_equal. lia.
+Qed.
+
+Lemma depth_leak_refuted_lemma : forall maxd, 0 < maxd ->
+  dec_conn true SpecRpc maxd 0 (repeat [0; 0; 0; 0] maxd) 0 = Some (maxd - 1).
+Proof. intros maxd H. now rewrite (depth_leak_run maxd maxd 0 0) by lia. Qed.
